@@ -49,7 +49,9 @@ Definition load_cached_legacy (s : state) (f : name) : state * out * bool :=
 
 (* a render is a tree of file accesses: each goes through the cache or reads through, and
    what is accessed next may depend on what was loaded (a layout named in front-matter) *)
-Inductive plan := Done | Access (f : name) (cached : bool) (k : out -> plan).
+Inductive plan := Done | Access (f : name) (cached : bool) (k : out -> plan)
+                | Probe (f : name) (k : bool -> plan).   (* Stat: does the file exist now?  (the default layout) *)
+Definition exists_file (s : state) (f : name) : bool := match files s f with Some _ => true | None => false end.
 Fixpoint run_plan (fuel : nat) (s : state) (p : plan) : state * list (name * out) :=
   match fuel, p with
   | S fu, Access f true k =>
@@ -58,6 +60,7 @@ Fixpoint run_plan (fuel : nat) (s : state) (p : plan) : state * list (name * out
   | S fu, Access f false k =>
       let o := read_through (files s) f in
       let '(s2, tr) := run_plan fu s (k o) in (s2, (f, o) :: tr)
+  | S fu, Probe f k => run_plan fu s (k (exists_file s f))
   | _, _ => (s, [])
   end.
 
@@ -70,6 +73,7 @@ Fixpoint run_plan_h (fuel : nat) (s : state) (p : plan) : state * list (name * o
   | S fu, Access f false k =>
       let o := read_through (files s) f in
       let '(s2, tr) := run_plan_h fu s (k o) in (s2, (f, o, false) :: tr)
+  | S fu, Probe f k => run_plan_h fu s (k (exists_file s f))
   | _, _ => (s, [])
   end.
 
@@ -98,5 +102,5 @@ Definition coherent (s : state) : Prop :=
 Definition timed (s : state) : Prop := forall f c t, files s f = Some (c, t) -> t <> 0.
 End Cache.
 Arguments OOk {parsed}. Arguments OErr {parsed}.
-Arguments Done {parsed}. Arguments Access {parsed}.
+Arguments Done {parsed}. Arguments Access {parsed}. Arguments Probe {parsed}.
 Arguments Edit {content parsed}. Arguments Delete {content parsed}. Arguments Render {content parsed}.
